@@ -77,13 +77,38 @@ def forward_start(path, strike, start_index, end_index=None):
     return gain if gain > 0 else gain * 0
 
 
+ULP = Fraction(1, 2 ** 52)
+
+
 def start_index(start, dt):
-    """Index of the last grid time i*dt that is <= start, for the *floats* start and dt taken
-    as exact rationals.  Returns (index, distance of start/dt to the nearest integer, is_integer)."""
+    """Contractual start index for the *floats* ``start`` and ``dt``.
+
+    q = start/dt is taken as the exact rational quotient of the two floats.
+      * q an integer k                      -> k                        ('on_grid_exact')
+      * |q - k| <= 4 ulp * max(k, 1)        -> k                        ('on_grid_rounded')
+        start and dt are each the nearest double of an intended real (k/250, 1/250, k*dt ...), so the
+        quotient of an intended exact multiple k*dt/dt is off by at most ~2 ulp relative: such a start
+        time *is* k steps (the start time is on the grid), whatever side of k the rounding fell on.
+      * farther than 2^-20 from every integer -> floor(q), the last grid time before start ('between')
+      * anything else                       -> None (convention not fixed; not enumerated)
+    Returns (index or None, kind)."""
     q = Fraction(start) / Fraction(dt)
-    idx = q.numerator // q.denominator
-    near = abs(q - round(q))
-    return idx, near, q.denominator == 1
+    k = round(q)
+    if q == k:
+        return int(k), "on_grid_exact"
+    if abs(q - k) <= 4 * ULP * max(k, 1):
+        return int(k), "on_grid_rounded"
+    if abs(q - k) > Fraction(1, 2 ** 20):
+        return q.numerator // q.denominator, "between"
+    return None, "undecided"
+
+
+def forward_start_float(path, strike, start_index, end_index=None):
+    """The same contract in plain IEEE double arithmetic (one division, one subtraction): for
+    float64 inputs this is bit-for-bit what any correct double implementation returns."""
+    end = path[len(path) - 1] if end_index is None else path[end_index]
+    gain = float(end) / float(path[start_index]) - float(strike)
+    return gain if gain > 0 else 0.0
 
 
 def realized_variance(path, dt):
